@@ -235,6 +235,9 @@ func c08System(base string) *explore.System {
 		txOp("CreateTopic(A,a/b)", s(A), aoltypes.NewMsgCreateTopic("a/b", "slash", A.Bech)),
 		txOp("CreateTopic(A,a.b-c_D)", s(A), aoltypes.NewMsgCreateTopic("a.b-c_D", "", A.Bech)),
 		txOp("CreateDenom(d/x:y,A)", s(A), pnfttypes.NewMsgCreateDenomRequest("d/x:y", "S4", "", "", "", "", A.Bech, "")),
+		// required text fields left empty: if the chain stores such a denom, its own genesis validation must accept it again
+		txOp("CreateDenom(nosym,A,symbol=empty)", s(A), pnfttypes.NewMsgCreateDenomRequest("nosym", "", "has a name", "", "", "", A.Bech, "")),
+		txOp("CreateDenom(noname,A,name=empty)", s(A), pnfttypes.NewMsgCreateDenomRequest("noname", "SYM", "", "", "", "", A.Bech, "")),
 		txOp("Mint(d,t/1,A)", s(A), pnfttypes.NewMsgMintPNFTRequest("d", "t/1", "", "", "", "", A.Bech, "")),
 	)
 	ops = append(ops, ctlOps("NB")...)
